@@ -265,6 +265,7 @@ func (p *BaseProcess) receiveOnInPorts() (ips map[string]*FileIP, inPortsOpen bo
 			continue
 		}
 		Debug.Printf("[Process %s]: Got ip (%s) ...", p.name, ip.Path())
+		vhook("ch.recv", p.name, inpName)
 		ips[inpName] = ip
 	}
 	return
@@ -281,6 +282,7 @@ func (p *BaseProcess) receiveOnInParamPorts() (params map[string]string, paramPo
 			continue
 		}
 		Debug.Printf("[Process %s]: Got param %s ...", p.name, pval)
+		vhook("ch.recv", p.name, pname)
 		params[pname] = pval
 	}
 	return
